@@ -164,6 +164,16 @@ impl Scenario for HubCore {
                     cfg.registered = vec!["val1", "val2", "val3"];
                     prefix = vec![bond(ALICE, 5 * k), bond_st(BOB, 11 * k)];
                 }
+                "ten_batches" => {
+                    for i in 0..10u128 {
+                        prefix.push(advance(11));
+                        prefix.push(unbond(ALICE, BSEI, (5 + i) * k));
+                        if i == 3 || i == 8 {
+                            prefix.push(unbond(BOB, STSEI, 7 * k));
+                        }
+                    }
+                    prefix.push(advance(1));
+                }
                 "one_val" => {
                     cfg.registered = vec!["val1"];
                 }
